@@ -45,6 +45,7 @@ ASSUMPTIONS = [
     'ledger model: at most 8 simultaneously live allocator blocks per proof unit (asserted, never assumed silently)',
     'block bases are object start + align*k with k in [0,9]: writes below a block base by less than align*k bytes are not detected',
     'the induction over operation histories (every public operation preserves the representation invariant) is a meta-argument over the discharged contracts',
+    'vector-level comparison units (vec.*.equal, not_equal, less, op_*) assume the exact tiling TIGHT of a varying vector (each element starts at the lowest storage-aligned address after its predecessor, data_end() is the end of the last element): established by emplace_back, preservation by the other mutators is not proved in this closed form',
 ]
 VEC_NOTE = ' Vector-level units (vec.*) fix the capacity and block size of the pre-state to enumerated constants (CBMC 6.11 needs minutes and tens of GB for objects of symbolic size that are read and written byte-wise, seconds for constant-size ones); size(), contents, offsets, counts, allocator ids stay symbolic. They are reported as bounded stand-ins and not counted as proved.'
 PROPERTY_META = {
@@ -72,12 +73,12 @@ PROPERTY_META = {
                 note='Bounded: span items <= 2, blocks <= 16 storage units, loops unwound; allocator trait combinations enumerated. element = reference and reference = element are covered at the reference level (C11).',
                 design_ref='DESIGN.md 6 C12'),
     'C13': dict(claimed=True, level='model_checking',
-                text='The real ElementTraits::equal and the reference operators == / != are verified against a contract that says: result == (same span sizes AND every field value equal), with every byte of both elements (alignment padding included) nondeterministic, for lists on the memcmp path and on the element-wise path; reflexivity and symmetry are checked on the real functions. Span lengths are bounded (<= 3 items) because the comparison loops are unwound.',
-                note='Bounded: span items <= 3 per side, loops (memcmp model, std::equal) unwound 32 times with unwinding assertions; floating-point values exclude NaN. Vector == vector is not under contract.',
+                text='The real ElementTraits::equal and the reference operators == / != are verified against a contract that says: result == (same span sizes AND every field value equal), with every byte of both elements (alignment padding included) nondeterministic, for lists on the memcmp path and on the element-wise path; reflexivity and symmetry are checked on the real functions. Span lengths are bounded (<= 3 items) because the comparison loops are unwound. The real vector operator== / != are under the same kind of contract (result == same number of elements AND same fixed sizes AND every field value equal, all other bytes of both blocks nondeterministic) for lists on the whole-buffer path and on the element-wise path, with capacity <= 3 and blocks of 16-32 bytes.',
+                note='Bounded: span items <= 3 per side, loops (memcmp model, std::equal) unwound 32 times with unwinding assertions; floating-point values exclude NaN. Vector-level units additionally fix capacity (<= 3) and block size (16-32 bytes) and assume the exact tiling of varying vectors (DESIGN 4.3 TIGHT).',
                 design_ref='DESIGN.md 6 C13'),
     'C14': dict(claimed=True, level='model_checking',
-                text='Contracts on the real reference operators >, <=, >= state them in terms of the real operator< (a > b == b < a, a <= b == !(b < a), a >= b == !(a < b)); irreflexivity, asymmetry and a < b => a != b are checked on the real operator< / operator== for symbolic element contents including padding.',
-                note='Bounded as C13. Transitivity and the vector-level lexicographical comparison are not under contract.',
+                text='Contracts on the real reference operators >, <=, >= state them in terms of the real operator< (a > b == b < a, a <= b == !(b < a), a >= b == !(a < b)); irreflexivity, asymmetry and a < b => a != b are checked on the real operator< / operator== for symbolic element contents including padding. The same laws are checked on the real vector operators, and the real vector operator< of byte lists is verified against the lexicographical comparison of the element sequences written over sizes and field values only.',
+                note='Bounded as C13. Transitivity is not under contract; vector operator< has an exact specification only for lists of single-byte unsigned plain fields (other lists: laws only).',
                 design_ref='DESIGN.md 6 C14'),
     'C15': dict(claimed=True, level='model_checking',
                 text='The real cntgs::detail::uninitialized_construct (the single funnel of every FixedSize/VaryingSize store) is verified per stored type x source value type x source form (pointer, std::array lvalue and rvalue, C array, non-contiguous generated iterator, aliasing-safe path) against: stored item k == StoredType(source item k) evaluated in C on the scalar types for an arbitrary witness k, returned end == target + n items, and an assigns clause that contains only the target items (sources unmodified). emplace_at is proved (unbounded) to pass its arguments to these stores at the right addresses.',
